@@ -193,6 +193,10 @@ def setDict (d : Dict) (p : Path) : Dict :=
   | some .dict => d
   | some (.leaf _) => d.map (fun e => if e.1 = p then (p, Val.dict) else e)
 
+/-- `main.add_splicer_code` on a list value: an empty YAML item (`None`) is a blank line.
+    (Since a `fix:` commit in /repo; before it `None` reached `write_lines`, which raised AttributeError.) -/
+def codeLines (l : List (Option Str)) : List Str := l.map (fun o => o.getD [])
+
 /-- One assignment of `main.add_splicer_code`. -/
 def mergeEntry (d : Dict) (e : Path × Val) : Dict :=
   match e.2 with
